@@ -8,11 +8,13 @@ import (
 	"encoding/binary"
 	"encoding/csv"
 	"fmt"
+	"io"
 	"sort"
 	"strings"
 
 	"github.com/klauspost/compress/s2"
 	"github.com/pckhoi/meow"
+	"github.com/wrgl/wrgl/pkg/diff"
 	"github.com/wrgl/wrgl/pkg/objects"
 )
 
@@ -515,4 +517,123 @@ func NormaliseCSV(cols []string, rows [][]string) [][]string {
 		return rows
 	}
 	return r
+}
+
+// sameRows: two row lists are equal cell for cell.
+func sameRows(a, b [][]string) bool {
+	if len(a) != len(b) {
+		return false
+	}
+	for i := range a {
+		if !rowsEqual(a[i], b[i]) {
+			return false
+		}
+	}
+	return true
+}
+
+// CheckRowReaders reads a stored table back by row position through the repository's positional
+// readers (diff.TableReader: sequential + Seek; diff.RowListReader: a list of row offsets) and
+// compares every row with the row the raw decode of the blocks has at that position. Both readers
+// turn a row offset into (block, offset in block) assuming that every block but the last is full.
+func CheckRowReaders(st objects.Store, sum []byte, r *Rand) (class, detail string) {
+	raw, ok := st.(RawReader)
+	if !ok {
+		return "", ""
+	}
+	_, want, err := ReadTableRaw(raw, sum)
+	if err != nil {
+		return "", "" // CheckTable reports this
+	}
+	tbl, err := objects.GetTable(st, sum)
+	if err != nil {
+		return "reader-error", fmt.Sprintf("GetTable: %v", err)
+	}
+	n := len(want)
+	tr, err := diff.NewTableReader(st, tbl)
+	if err != nil {
+		return "reader-error", fmt.Sprintf("NewTableReader: %v", err)
+	}
+	if tr.Len() != n {
+		return "reader-len", fmt.Sprintf("TableReader.Len() = %d, the table has %d rows", tr.Len(), n)
+	}
+	// positions: block edges, ends, and seeded ones
+	pos := []int{0, 1, 253, 254, 255, 256, 509, 510, 511, n - 2, n - 1}
+	for i := 0; i < 12; i++ {
+		if n > 0 {
+			pos = append(pos, r.Intn(n))
+		}
+	}
+	cur := 0
+	for _, p := range pos {
+		if p < 0 || p >= n {
+			continue
+		}
+		var got int
+		switch r.Intn(3) {
+		case 0:
+			got, err = tr.Seek(p, io.SeekStart)
+		case 1:
+			got, err = tr.Seek(p-cur, io.SeekCurrent)
+		default:
+			got, err = tr.Seek(p-n, io.SeekEnd)
+		}
+		if err != nil || got != p {
+			return "reader-seek", fmt.Sprintf("TableReader.Seek to row %d of %d: position %d, err %v", p, n, got, err)
+		}
+		// a short sequential run from there (crosses a block edge when p is just before one)
+		for k := 0; k < 3 && p+k < n; k++ {
+			row, err := tr.Read()
+			if err != nil {
+				return "reader-error", fmt.Sprintf("TableReader.Read at row %d of %d: %v", p+k, n, err)
+			}
+			if !rowsEqual(row, want[p+k]) {
+				return "reader-row-wrong", fmt.Sprintf("TableReader row %d of %d = %s, the table holds %s there", p+k, n, clip(row), clip(want[p+k]))
+			}
+		}
+		cur = min(p+3, n)
+	}
+	if _, err := tr.Seek(0, io.SeekEnd); err != nil {
+		return "reader-seek", fmt.Sprintf("TableReader.Seek to the end: %v", err)
+	}
+	if row, err := tr.Read(); err != io.EOF {
+		return "reader-eof", fmt.Sprintf("TableReader.Read past the last of %d rows: row %s, err %v (want io.EOF)", n, clip(row), err)
+	}
+	lr, err := diff.NewRowListReader(st, tbl)
+	if err != nil {
+		return "reader-error", fmt.Sprintf("NewRowListReader: %v", err)
+	}
+	var offs []int
+	for _, p := range pos {
+		if p >= 0 && p < n {
+			offs = append(offs, p)
+			lr.Add(uint32(p))
+		}
+	}
+	if lr.Len() != len(offs) {
+		return "reader-len", fmt.Sprintf("RowListReader.Len() = %d after %d Add", lr.Len(), len(offs))
+	}
+	for i, p := range offs {
+		row, err := lr.Read()
+		if err != nil {
+			return "reader-error", fmt.Sprintf("RowListReader.Read #%d (row %d of %d): %v", i, p, n, err)
+		}
+		if !rowsEqual(row, want[p]) {
+			return "reader-row-wrong", fmt.Sprintf("RowListReader row %d of %d = %s, the table holds %s there", p, n, clip(row), clip(want[p]))
+		}
+	}
+	if row, err := lr.Read(); err != io.EOF {
+		return "reader-eof", fmt.Sprintf("RowListReader.Read past its list: row %s, err %v (want io.EOF)", clip(row), err)
+	}
+	if len(offs) > 0 {
+		k := r.Intn(len(offs))
+		if _, err := lr.Seek(k, io.SeekStart); err != nil {
+			return "reader-seek", fmt.Sprintf("RowListReader.Seek: %v", err)
+		}
+		row, err := lr.Read()
+		if err != nil || !rowsEqual(row, want[offs[k]]) {
+			return "reader-row-wrong", fmt.Sprintf("RowListReader after Seek(%d): row %s err %v, the table holds %s at row %d", k, clip(row), err, clip(want[offs[k]]), offs[k])
+		}
+	}
+	return "", ""
 }
